@@ -108,6 +108,7 @@ func vfCompactBoundaries(raw []byte) []int {
 
 func vfC13eval(c *vfC13Case, st *vfC13Stats) error {
 	dir := vfh.TmpDir("c13")
+	defer vfCloseLeaked(dir) // runs last: whatever is still open under dir then has no owner (failed epoch / reader opens)
 	defer os.RemoveAll(dir)
 	ep, err := cargen.Build(c.Spec)
 	if err != nil {
@@ -375,7 +376,8 @@ func vfC13eval(c *vfC13Case, st *vfC13Stats) error {
 	}
 	var btBounds []int
 	for _, b := range ep.Blocks {
-		off := 8*5 + int(b.Slot-ep.FirstSlot())*4
+		// header: magic "blocktimeindex" (14 bytes) + start, end, epoch, capacity (8 bytes each), then 4 bytes per slot
+		off := 14 + 8*4 + int(b.Slot-ep.FirstSlot())*4
 		btBounds = append(btBounds, off, off+4)
 	}
 	for _, cut := range vfCuts(len(rawBT), btBounds, rng, 60) {
@@ -457,6 +459,7 @@ func vfC13eval(c *vfC13Case, st *vfC13Stats) error {
 			}
 			if err != nil {
 				st.add("gsfa-"+fname+"/open-error", 1)
+				vfCloseLeaked(tdir)
 				continue
 			}
 			for _, a := range addrs {
@@ -642,6 +645,16 @@ func TestVfC13(t *testing.T) {
 	opts.BigFrames = false
 	rapid.Check(t, func(rt *rapid.T) {
 		c := &vfC13Case{Spec: cargen.Gen(rt, opts), CutSeed: rapid.Uint64().Draw(rt, "cutSeed")}
+		if rapid.IntRange(0, 2).Draw(rt, "lastSlot") == 0 && len(c.Spec.Blocks) > 0 {
+			// the last block on the last slot of the epoch: its values are the final bytes of the per-slot files
+			span := 0
+			for _, b := range c.Spec.Blocks[1:] {
+				span += max(b.Gap, 1)
+			}
+			if c.Spec.Epoch > 0 || len(c.Spec.Blocks) > 2 {
+				c.Spec.Blocks[0].Gap = cargen.SlotsPerEpoch - 1 - span
+			}
+		}
 		run.SetLast(c)
 		st := &vfC13Stats{m: map[string]int{}}
 		err, panicked := vfh.Catch(func() error { return vfC13eval(c, st) })
